@@ -82,6 +82,13 @@ def _eval(e, env, atom_of, asg):
         return _eval(e.body if _eval(e.test, env, atom_of, asg) else e.orelse, env, atom_of, asg)
     if isinstance(e, (ast.List, ast.Tuple)):
         return [_value(x, env, atom_of, asg) for x in e.elts]
+    if isinstance(e, ast.Compare) and len(e.ops) == 1 and isinstance(e.ops[0], (ast.Is, ast.IsNot)):
+        # `flag is True` / `flag is False` for an atom known to hold a real bool (atom_of.boolean): its truth value / the negation
+        for x, c in ((e.left, e.comparators[0]), (e.comparators[0], e.left)):
+            if isinstance(c, ast.Constant) and isinstance(c.value, bool):
+                k = atom_of(x)
+                if k is not None and k in getattr(atom_of, "boolean", ()):
+                    return (asg[k] == c.value) == isinstance(e.ops[0], ast.Is)
     if isinstance(e, ast.Compare) and len(e.ops) == 1:
         l, r = _eval(e.left, env, atom_of, asg), _eval(e.comparators[0], env, atom_of, asg)
         if all(isinstance(x, (bool, int)) for x in (l, r)):
